@@ -55,9 +55,10 @@ type ReducedGraph interface {
 	// describes the membership of a community at
 	// the current level by indexing via the node
 	// ID into the structure of the non-nil
-	// ReducedGraph returned by Expanded, or when the
-	// ReducedGraph is nil, by containing nodes
-	// from the original input graph.
+	// ReducedGraph returned by Expanded, or at the
+	// lowest level, by indexing via the node ID into
+	// the nodes of the original input graph sorted
+	// by ID.
 	//
 	// The returned value should not be mutated.
 	Structure() [][]graph.Node
@@ -169,9 +170,10 @@ type ReducedMultiplex interface {
 	// describes the membership of a community at
 	// the current level by indexing via the node
 	// ID into the structure of the non-nil
-	// ReducedGraph returned by Expanded, or when the
-	// ReducedGraph is nil, by containing nodes
-	// from the original input graph.
+	// ReducedGraph returned by Expanded, or at the
+	// lowest level, by indexing via the node ID into
+	// the nodes of the original input graph sorted
+	// by ID.
 	//
 	// The returned value should not be mutated.
 	Structure() [][]graph.Node
